@@ -52,9 +52,14 @@ Record term_obs := mkTermObs {
   to_first_terminal : Z;
   to_tjm : list (Z * Z) }.
 
+(* arrays are transmitted as differences from an array the model already has (cells that differ bit-wise) *)
+Definition diff := list (spot * float).
+Definition apply_diff (d : arr) (df : diff) : arr := update_cells d (map fst df) (map snd df).
+
 (* per-frame observations *)
 Record frame_rec := mkFrameRec {
-  r_oracle : arr;                        (* frame data after simulate_frame *)
+  r_pruned_diff : diff;                  (* frame data entering simulate_frame, relative to the main array *)
+  r_after_diff : diff;                   (* frame data after simulate_frame, relative to the data entering it *)
   r_columns : list Z;                    (* columns_to_run seen by _get_wrt_spots *)
   r_wrt : list spot;
   r_exog : option (list spot);           (* sorted *)
@@ -76,10 +81,11 @@ Record sim_case := mkSimCase {
   c_pcut : option (list (list bool));
   c_frames : list frame_obs;
   c_setup : sim_setup;
-  c_input : arr;
-  c_main0 : arr;
+  c_main0 : arr;                         (* main array when the frame loop starts (after the initial guess) *)
+  c_input_diff : diff;                   (* input_data_array relative to c_main0 *)
   c_frame_recs : list frame_rec;
-  c_final : arr }.
+  c_final_diff : diff                    (* main array after the last write-back, relative to c_main0 *)
+}.
 
 Definition model_frames (c : sim_case) : list frame :=
   if c_pbp c then pbp_frames (c_base_periods c)
@@ -100,7 +106,7 @@ Definition check_term (S : sim_setup) (f : frame) (wrt : list spot) (o : option 
   | _, _ => [29%nat]
   end.
 
-Definition check_frame (S : sim_setup) (f : frame) (r : frame_rec) (after : arr) : list nat :=
+Definition check_frame (S : sim_setup) (f : frame) (r : frame_rec) (after oracle : arr) : list nat :=
   let cols := columns_to_run (s_fcp S) f in
   let wrt := frame_wrt S f in
   let twrt := match s_term S, r_term r with
@@ -120,28 +126,35 @@ Definition check_frame (S : sim_setup) (f : frame) (r : frame_rec) (after : arr)
                                Z.of_nat (length (wrt ++ twrt))) (r_jac_shape r) then [] else [16%nat])
   ++ check_term S f wrt (r_term r)
   ++ (if list_eqb fsame (stack_lists nan (r_per_equation r) (length cols)) (r_stacked r) then [] else [17%nat])
-  ++ (if arr_eqb after (r_oracle r) then [] else [18%nat]).
+  ++ (if arr_eqb after oracle then [] else [18%nat]).
 
-Fixpoint check_frames (S : sim_setup) (fs : list frame) (rs : list frame_rec) (afters : list arr) (k : nat)
-  : list (nat * nat) :=
-  match fs, rs, afters with
-  | f :: fs', r :: rs', a :: as' =>
-      map (fun id => (k, id)) (check_frame S f r a) ++ check_frames S fs' rs' as' (Datatypes.S k)
-  | [], [], [] => []
-  | _, _, _ => [(k, 19%nat)]
+(* the frame loop: the model's own running main array; the recorded arrays are rebuilt from their differences *)
+Fixpoint check_frames (S : sim_setup) (input main : arr) (fs : list frame) (rs : list frame_rec) (k : nat)
+  : list (nat * nat) * arr :=
+  match fs, rs with
+  | f :: fs', r :: rs' =>
+      let pruned_rec := apply_diff main (r_pruned_diff r) in
+      let oracle := apply_diff pruned_rec (r_after_diff r) in
+      let step := step_frame nan fzero S input main f oracle in
+      let rest := check_frames S input (snd step) fs' rs' (Datatypes.S k) in
+      (map (fun id => (k, id))
+           ((if arr_eqb (prune fzero (s_uqids S) (s_fcp S) f main) pruned_rec then [] else [30%nat])
+            ++ check_frame S f r (fst step) oracle) ++ fst rest, snd rest)
+  | [], [] => ([], main)
+  | _, _ => ([(k, 19%nat)], main)
   end.
 
 (* (frame index, check id); frame index 999 = checks of the whole simulation *)
 Definition check_sim (c : sim_case) : list (nat * nat) :=
   let S := c_setup c in
   let fs := model_frames c in
-  let run := run_frames nan fzero S (c_input c) (c_main0 c) fs (map r_oracle (c_frame_recs c)) in
+  let run := check_frames S (apply_diff (c_main0 c) (c_input_diff c)) (c_main0 c) fs (c_frame_recs c) 0 in
   (if zs_eqb (map (fun p => p - s_fcp S) (c_base_periods c)) (c_base_columns c) then [] else [(999%nat, 1%nat)])
   ++ (if Nat.eqb (length fs) (length (c_frames c)) && forallb (fun fo => frame_matches (s_fcp S) (fst fo) (snd fo))
                                                                (combine fs (c_frames c))
       then [] else [(999%nat, 2%nat)])
-  ++ check_frames S fs (c_frame_recs c) (fst run) 0
-  ++ (if arr_eqb (snd run) (c_final c) then [] else [(999%nat, 3%nat)]).
+  ++ fst run
+  ++ (if arr_eqb (snd run) (apply_diff (c_main0 c) (c_final_diff c)) then [] else [(999%nat, 3%nat)]).
 
 Fixpoint failing_sims (cs : list sim_case) (i : nat) : list (nat * list (nat * nat)) :=
   match cs with
